@@ -1,7 +1,5 @@
 """Home of the `BasicGenerator` class."""
 
-import random
-
 from job_shop_lib import JobShopInstance, Operation
 from job_shop_lib.exceptions import ValidationError
 from job_shop_lib.generation import InstanceGenerator
@@ -102,9 +100,6 @@ class GeneralInstanceGenerator(InstanceGenerator):
         self.allow_recirculation = allow_recirculation
         self.name_suffix = name_suffix
 
-        if seed is not None:
-            random.seed(seed)
-
     def __repr__(self) -> str:
         return (
             f"GeneralInstanceGenerator("
@@ -117,13 +112,15 @@ class GeneralInstanceGenerator(InstanceGenerator):
         self, num_jobs: int | None = None, num_machines: int | None = None
     ) -> JobShopInstance:
         if num_jobs is None:
-            num_jobs = random.randint(*self.num_jobs_range)
+            num_jobs = self.rng.randint(*self.num_jobs_range)
 
         if num_machines is None:
             min_num_machines, max_num_machines = self.num_machines_range
             if not self.allow_less_jobs_than_machines:
                 max_num_machines = min(num_jobs, max_num_machines)
-            num_machines = random.randint(min_num_machines, max_num_machines)
+            num_machines = self.rng.randint(
+                min_num_machines, max_num_machines
+            )
         elif (
             not self.allow_less_jobs_than_machines and num_jobs < num_machines
         ):
@@ -154,7 +151,7 @@ class GeneralInstanceGenerator(InstanceGenerator):
                 A list of available machine_ids to choose from.
                 If ``None``, all machines are available.
         """
-        duration = random.randint(*self.duration_range)
+        duration = self.rng.randint(*self.duration_range)
 
         if self.machines_per_operation[1] > 1:
             machines = self._choose_multiple_machines(available_machines)
@@ -169,11 +166,11 @@ class GeneralInstanceGenerator(InstanceGenerator):
         if available_machines is None:
             _, max_num_machines = self.num_machines_range
             available_machines = list(range(max_num_machines))
-        num_machines = random.randint(*self.machines_per_operation)
+        num_machines = self.rng.randint(*self.machines_per_operation)
         available_machines = list(available_machines)
         machines = []
         for _ in range(num_machines):
-            machine = random.choice(available_machines)
+            machine = self.rng.choice(available_machines)
             machines.append(machine)
             available_machines.remove(machine)
         return machines
@@ -185,7 +182,7 @@ class GeneralInstanceGenerator(InstanceGenerator):
             _, max_num_machines = self.num_machines_range
             available_machines = list(range(max_num_machines))
 
-        machine_id = random.choice(available_machines)
+        machine_id = self.rng.choice(available_machines)
         if not self.allow_recirculation:
             available_machines.remove(machine_id)
 
